@@ -20,7 +20,8 @@ PrinterDofPlace == "top"
 DocumentedLengthTokens == {"int", "real"}
 DocumentedOffsetTokens == {"int", "real", "deg-int", "deg-real"}
 DocumentedDofPlaces == {"absent", "top", "nested"}
-DocumentedArrayLengths == {5, 6}
+\* (0: the entry is left out - "offsets, sign corrections and DOF are optional")
+DocumentedArrayLengths == {0, 5, 6}
 
 \* what a correct reader accepts (printer output and every documented variant)
 ReaderLengthTokens == DocumentedLengthTokens \cup {PrinterLengthToken(vc) : vc \in ValueClasses}
@@ -35,5 +36,6 @@ LegacyReaderDofPlaces == {"absent", "nested"}
 \* dof: 6 unless a dof entry says 5; sign corrections: a missing sixth entry is 0, and a 5-DOF robot has
 \* joint 6 blocked (sign 0); offsets: a missing sixth entry is 0
 ExpectedDof(place, value) == IF place = "absent" THEN 6 ELSE value
-ExpectedSign6(nsigns, sign6, dof) == IF dof = 5 \/ nsigns = 5 THEN 0 ELSE sign6
+\* (no sign array: every joint turns in the model's direction)
+ExpectedSign6(nsigns, sign6, dof) == IF dof = 5 \/ nsigns = 5 THEN 0 ELSE IF nsigns = 0 THEN 1 ELSE sign6
 =============================================================================
